@@ -729,7 +729,7 @@ for w in ("0", "1", "2", "3"):
          replace=["cbor_build_ctrl", "cbor_build_float2", "cbor_build_float4", "cbor_build_float8"])
 COPY("DEF_BYTESTRING", replace=["cbor_build_bytestring"])
 COPY("DEF_STRING", replace=["cbor_build_stringn"])
-COPY("TAG", replace=["cbor_tag_item/cbor_tag_item__hered", "cbor_move/cbor_move__hered", "cbor_build_tag", "cbor_decref"])
+COPY("TAG", replace=["cbor_tag_item/cbor_tag_item__hered", "cbor_move/cbor_move__hered", "cbor_build_tag", "cbor_decref/cbor_decref__owned"])
 
 # ------------------------------------------------------------------------------------------------
 # cbor_load (C05 first: empty input)
